@@ -5,7 +5,7 @@ import ast
 
 from . import e2_formula as F
 from .core import AnchorError, Unsupported
-from .e1_srcmodel import dotted, find_nodes, walk_no_nested, ancestors
+from .e1_srcmodel import dotted, find_nodes, walk_no_nested, ancestors, utext
 from .e2_eval import Evaluator, Unknown, is_unknown, need
 
 UTIL = "pyyeti/ode/_utilities.py"
@@ -421,7 +421,7 @@ def r3_partition_typing(ctx):
                       None if ok else repr(t), key=f"C01-R5|SolveExp2.__init__|{nm}")
     # the [v; d] layout itself: _build_A puts the velocity equations in rows :n (A[v2, v1] = 1 is d' = v)
     fb = ctx.src.func(O.BASE, "_BaseODE._build_A")
-    txt = ast.unparse(fb).replace(" ", "")
+    txt = utext(fb)
     ok = "A[v2,v1]=1.0" in txt and "v1=range(n)" in txt and "v2=range(n,2*n)" in txt and "A[:n,:n]=-self.b" in txt and "A[:n,n:]=-self.k" in txt
     ctx.check(ok, "_build_A: state is [v; d] (rows :n are the velocity equations -b v - k d, rows n: are d' = v)", fb)
 
@@ -463,12 +463,12 @@ def r4_frame_typing(ctx):
     # the way back: _solution / _solution_freq map d, v, a with phi on the same flag
     for q in ("_BaseODE._solution", "_BaseODE._solution_freq"):
         f2 = ctx.src.func(O.BASE, q)
-        txt = ast.unparse(f2).replace(" ", "")
+        txt = utext(f2)
         ok = all(f"{x}=self.phi@{x}" in txt for x in "dva") and "ifself.pre_eig:" in txt
         ctx.check(ok, f"{q}: d, v, a are mapped back with self.phi when pre_eig", f2)
     # _do_pre_eig: phi diagonalises (k, m); b is transformed by the same phi; m becomes None (identity)
     f3 = ctx.src.func(O.BASE, "_BaseODE._do_pre_eig")
-    txt = ast.unparse(f3).replace(" ", "")
+    txt = utext(f3)
     ok = "w,u=la.eigh(k,m)" in txt and "w,u=la.eigh(k)" in txt and "self.phi=u" in txt and "m=None" in txt and "k=w" in txt \
         and "b=u.T@b@u" in txt and "b=u.T*b@u" in txt
     ctx.check(ok, "_do_pre_eig: phi = eigenvectors of (k, m); m -> None, k -> w, b -> phi.T b phi (both 1-D and 2-D b)", f3)
